@@ -7,7 +7,9 @@
 (*                        assert!(slot is None); pool.begin().await;       *)
 (*                        slot.replace(tx); return TransactionPermit       *)
 (*   `tx`       :284-292  lock the slot, run the closure on the slot's     *)
-(*                        transaction (whoever put it there)               *)
+(*                        transaction (whoever put it there); the slot     *)
+(*                        lock is held until the call returns or its       *)
+(*                        future is dropped                                *)
 (*   `commit`   :374-388  slot.take(); tx.commit().await; drop the permit  *)
 (*   `rollback` :356-370  slot.take(); tx.rollback().await; drop permit    *)
 (*   `impl Drop for TransactionPermit` :424-441  if not committed: clone   *)
@@ -18,9 +20,11 @@
 (*                        body leaves the scope and drops the permit        *)
 (*                                                                         *)
 (* Processes: writers (each runs up to MaxTx transactions: begin, up to    *)
-(* MaxWrites writes, then ONE of commit | rollback | drop the permit; the  *)
-(* abort point and kind is TLC's choice at every step) and the rollback    *)
-(* tasks spawned by dropped permits.                                       *)
+(* MaxWrites writes - each a tx(..) call that holds the slot lock while it *)
+(* is in flight - then ONE of commit | rollback | drop the permit, also    *)
+(* while a tx(..) call of the transaction is still in flight; the abort    *)
+(* point and kind is TLC's choice at every step) and the rollback tasks    *)
+(* spawned by dropped permits, which wait for the slot lock.               *)
 (*                                                                         *)
 (* The semaphore is tokio's fair semaphore: waiters queue in FIFO order    *)
 (* and a released permit is handed to the head of the queue at release     *)
@@ -32,31 +36,39 @@ EXTENDS Integers, Sequences, FiniteSets
 CONSTANTS Writers,     \* set of strings
           MaxTx,       \* transactions per writer
           MaxWrites,   \* writes per transaction
-          Keys         \* set of strings: keys of the key-value table (last writer wins)
+          Keys,        \* set of strings: keys of the key-value table (last writer wins)
+          MaxReads     \* tx(..) calls without effect (failing statement, read) per transaction
 
 VARIABLES
     sem,        \* available permits of the Semaphore(1)
     queue,      \* writers suspended in acquire_owned(), FIFO
     slot,       \* "none" or the writer whose sqlx transaction sits in Arc<Mutex<Option<Tx>>>
+    slotLock,   \* "free" or the writer whose tx(..) call holds the tokio Mutex around the slot
+    reads,      \* [w] -> effect-free tx(..) calls of the current transaction (bounds the model)
+    pending,    \* [w] -> key the tx(..) call in flight of w will have written ("none": no effect)
     dirty,      \* writes executed on the transaction in the slot, not yet committed
     db,         \* committed writes, in commit order (the database)
     order,      \* committed transactions [w, t] in commit order
     expected,   \* what `order` must have produced: concatenation of the committed writers' OWN writes
     mine,       \* [w] -> writes writer w issued in its current transaction
-    pc,         \* [w] -> "idle" | "waiting" | "acquired" | "in_tx" | "taken_c" | "taken_r" | "done"
+    pc,         \* [w] -> "idle" | "waiting" | "acquired" | "in_tx" | "writing" (tx(..) in flight) |
+                \*        "orphan" (permit dropped, its tx(..) call still in flight) | "taken_c" | "taken_r" | "done"
     txn,        \* [w] -> index of the current / next transaction of w
     rbSpawned,  \* rollback tasks spawned by a dropped permit, not yet run: set of [w, t]
+    rbWaiting,  \* rollback tasks suspended in `tx.lock().await` (the slot lock is held by a tx(..) call)
     rbTaken,    \* rollback tasks that took + rolled back the slot and still hold the permit clone
     aborted,    \* transactions that ended without commit
     broken      \* a panic!/assert! of sqlite.rs fired ("none" or its name)
 
-vars == <<sem, queue, slot, dirty, db, order, expected, mine, pc, txn, rbSpawned, rbTaken, aborted, broken>>
+vars == <<sem, queue, slot, slotLock, reads, pending, dirty, db, order, expected, mine, pc, txn, rbSpawned, rbWaiting, rbTaken, aborted, broken>>
 
 TxId(w) == [w |-> w, t |-> txn[w]]
 Write(w, k) == [w |-> w, t |-> txn[w], j |-> Len(mine[w]), k |-> k]
 
 Init ==
     /\ sem = 1 /\ queue = <<>> /\ slot = "none" /\ dirty = <<>>
+    /\ slotLock = "free" /\ pending = [w \in Writers |-> "none"] /\ rbWaiting = {}
+    /\ reads = [w \in Writers |-> 0]
     /\ db = <<>> /\ order = <<>> /\ expected = <<>>
     /\ mine = [w \in Writers |-> <<>>]
     /\ pc = [w \in Writers |-> "idle"]
@@ -80,25 +92,27 @@ NextTx(w) == IF txn[w] + 1 >= MaxTx THEN "done" ELSE "idle"
 ---------------------------------------------------------------------------
 (* begin()                                                                 *)
 
-\* first poll of acquire_owned(): take the permit if it is free, else queue up   (sqlite.rs:329-334)
+\* first poll of acquire_owned(): take the permit if it is free, else queue up   (sqlite.rs begin)
 WantBegin(w) ==
     /\ pc[w] = "idle" /\ broken = "none"
     /\ IF sem > 0 /\ queue = <<>>
        THEN sem' = sem - 1 /\ pc' = [pc EXCEPT ![w] = "acquired"] /\ queue' = queue
        ELSE sem' = sem /\ pc' = [pc EXCEPT ![w] = "waiting"] /\ queue' = Append(queue, w)
     /\ mine' = [mine EXCEPT ![w] = <<>>]
-    /\ UNCHANGED <<slot, dirty, db, order, expected, txn, rbSpawned, rbTaken, aborted, broken>>
+    /\ reads' = [reads EXCEPT ![w] = 0]
+    /\ UNCHANGED <<slot, slotLock, pending, dirty, db, order, expected, txn, rbSpawned, rbWaiting, rbTaken, aborted, broken>>
 
-\* lock the slot, assert it is empty, pool.begin(), replace   (sqlite.rs:339-347)
+\* lock the slot, assert it is empty, pool.begin(), replace, unlock
 SetSlot(w) ==
     /\ pc[w] = "acquired" /\ broken = "none"
+    /\ slotLock = "free"
     /\ IF slot # "none"
        THEN /\ broken' = "assert: existing transaction after a just-acquired permit"
             /\ UNCHANGED <<slot, dirty, pc>>
        ELSE /\ slot' = w /\ dirty' = <<>>
             /\ pc' = [pc EXCEPT ![w] = "in_tx"]
             /\ UNCHANGED broken
-    /\ UNCHANGED <<sem, queue, db, order, expected, mine, txn, rbSpawned, rbTaken, aborted>>
+    /\ UNCHANGED <<sem, queue, slotLock, reads, pending, db, order, expected, mine, txn, rbSpawned, rbWaiting, rbTaken, aborted>>
 
 \* the begin() future is dropped while it waits for the permit: tokio unlinks the waiter
 CancelWaiting(w) ==
@@ -107,7 +121,7 @@ CancelWaiting(w) ==
     /\ pc' = [pc EXCEPT ![w] = NextTx(w)]
     /\ txn' = [txn EXCEPT ![w] = @ + 1]
     /\ aborted' = aborted \cup {TxId(w)}
-    /\ UNCHANGED <<sem, slot, dirty, db, order, expected, mine, rbSpawned, rbTaken, broken>>
+    /\ UNCHANGED <<sem, slot, slotLock, reads, pending, dirty, db, order, expected, mine, rbSpawned, rbWaiting, rbTaken, broken>>
 
 \* the begin() future is dropped after the permit was acquired, before the slot is set:
 \* the bare OwnedSemaphorePermit is dropped, there is nothing to roll back
@@ -116,23 +130,51 @@ CancelAcquired(w) ==
     /\ ReleaseSem([pc EXCEPT ![w] = NextTx(w)])
     /\ txn' = [txn EXCEPT ![w] = @ + 1]
     /\ aborted' = aborted \cup {TxId(w)}
-    /\ UNCHANGED <<slot, dirty, db, order, expected, mine, rbSpawned, rbTaken, broken>>
+    /\ UNCHANGED <<slot, slotLock, reads, pending, dirty, db, order, expected, mine, rbSpawned, rbWaiting, rbTaken, broken>>
 
 ---------------------------------------------------------------------------
-(* inside the transaction                                                  *)
+(* inside the transaction: store.tx(|tx| ..)                               *)
 
-\* store.tx(|tx| INSERT ..): executes on whatever transaction is in the slot   (sqlite.rs:284-292)
-TxWrite(w, k) ==
+\* What the spawned rollback task does once it owns the slot lock: take + roll back whatever is
+\* in the slot. `tokio::sync::Mutex` is fair: a task suspended in `lock().await` gets the lock
+\* the moment it is released.
+HandOverLock ==
+    IF rbWaiting # {}
+    THEN LET r == CHOOSE x \in rbWaiting : TRUE IN
+         /\ rbWaiting' = rbWaiting \ {r}
+         /\ rbTaken' = rbTaken \cup {r}
+         /\ slot' = "none" /\ dirty' = <<>>
+    ELSE UNCHANGED <<rbWaiting, rbTaken, slot>> /\ dirty' = dirty
+
+\* `self.tx.lock().await` inside tx(..), then the closure starts its query: the call is in flight
+\* and holds the slot lock. k = "none": a call without effect (a failing statement, a read).
+LockSlot(w, k) ==
     /\ pc[w] = "in_tx" /\ broken = "none"
-    /\ Len(mine[w]) < MaxWrites
+    /\ slotLock = "free"
+    /\ IF k = "none" THEN reads[w] < MaxReads ELSE Len(mine[w]) < MaxWrites
+    /\ reads' = [reads EXCEPT ![w] = IF k = "none" THEN @ + 1 ELSE @]
     /\ slot # "none"                      \* else Err(TransactionMissing); cannot happen, see OwnSlot
-    /\ dirty' = Append(dirty, Write(w, k))
-    /\ mine' = [mine EXCEPT ![w] = Append(@, Write(w, k))]
-    /\ UNCHANGED <<sem, queue, slot, db, order, expected, pc, txn, rbSpawned, rbTaken, aborted, broken>>
+    /\ slotLock' = w
+    /\ pending' = [pending EXCEPT ![w] = k]
+    /\ pc' = [pc EXCEPT ![w] = "writing"]
+    /\ UNCHANGED <<sem, queue, slot, dirty, db, order, expected, mine, txn, rbSpawned, rbWaiting, rbTaken, aborted, broken>>
 
-\* commit(permit): slot.take(), tx.commit().await   (sqlite.rs:375-379)
+\* the call returns: its writes are part of the transaction in the slot, the lock is released
+UnlockSlot(w) ==
+    /\ pc[w] = "writing" /\ broken = "none"
+    /\ slotLock' = "free"
+    /\ IF pending[w] # "none"
+       THEN /\ dirty' = Append(dirty, Write(w, pending[w]))
+            /\ mine' = [mine EXCEPT ![w] = Append(@, Write(w, pending[w]))]
+       ELSE UNCHANGED <<dirty, mine>>
+    /\ pending' = [pending EXCEPT ![w] = "none"]
+    /\ pc' = [pc EXCEPT ![w] = "in_tx"]
+    /\ UNCHANGED <<sem, queue, slot, reads, db, order, expected, txn, rbSpawned, rbWaiting, rbTaken, aborted, broken>>
+
+\* commit(permit): slot.take(), tx.commit().await
 TakeCommit(w) ==
     /\ pc[w] = "in_tx" /\ broken = "none"
+    /\ slotLock = "free"
     /\ IF slot = "none"
        THEN /\ broken' = "panic: no transaction without dropping permit first"
             /\ UNCHANGED <<slot, dirty, db, order, expected, pc>>
@@ -142,11 +184,12 @@ TakeCommit(w) ==
             /\ dirty' = <<>> /\ slot' = "none"
             /\ pc' = [pc EXCEPT ![w] = "taken_c"]
             /\ UNCHANGED broken
-    /\ UNCHANGED <<sem, queue, mine, txn, rbSpawned, rbTaken, aborted>>
+    /\ UNCHANGED <<sem, queue, slotLock, reads, pending, mine, txn, rbSpawned, rbWaiting, rbTaken, aborted>>
 
-\* rollback(permit): slot.take(), tx.rollback().await   (sqlite.rs:357-361)
+\* rollback(permit): slot.take(), tx.rollback().await
 TakeRollback(w) ==
     /\ pc[w] = "in_tx" /\ broken = "none"
+    /\ slotLock = "free"
     /\ IF slot = "none"
        THEN /\ broken' = "panic: no transaction without dropping permit first"
             /\ UNCHANGED <<slot, dirty, pc, aborted>>
@@ -154,31 +197,56 @@ TakeRollback(w) ==
             /\ pc' = [pc EXCEPT ![w] = "taken_r"]
             /\ aborted' = aborted \cup {TxId(w)}
             /\ UNCHANGED broken
-    /\ UNCHANGED <<sem, queue, db, order, expected, mine, txn, rbSpawned, rbTaken>>
+    /\ UNCHANGED <<sem, queue, slotLock, reads, pending, db, order, expected, mine, txn, rbSpawned, rbWaiting, rbTaken>>
 
-\* permit.mark_committed_and_drop(): committed = true, the permit is released at once   (:367, :385)
+\* permit.mark_committed_and_drop(): committed = true, the permit is released at once
 ReleasePermit(w) ==
     /\ pc[w] \in {"taken_c", "taken_r"} /\ broken = "none"
     /\ ReleaseSem([pc EXCEPT ![w] = NextTx(w)])
     /\ txn' = [txn EXCEPT ![w] = @ + 1]
-    /\ UNCHANGED <<slot, dirty, db, order, expected, mine, rbSpawned, rbTaken, aborted, broken>>
+    /\ UNCHANGED <<slot, slotLock, reads, pending, dirty, db, order, expected, mine, rbSpawned, rbWaiting, rbTaken, aborted, broken>>
 
 \* the TransactionPermit is dropped uncommitted (explicit drop, `?` in tx!, panic, cancelled task):
-\* Drop clones permit + slot into a spawned task; the writer goes on   (sqlite.rs:424-441)
+\* Drop clones permit + slot into a spawned task; the writer goes on   (impl Drop for TransactionPermit)
 DropPermit(w) ==
     /\ pc[w] = "in_tx" /\ broken = "none"
     /\ rbSpawned' = rbSpawned \cup {TxId(w)}
     /\ aborted' = aborted \cup {TxId(w)}
     /\ pc' = [pc EXCEPT ![w] = NextTx(w)]
     /\ txn' = [txn EXCEPT ![w] = @ + 1]
-    /\ UNCHANGED <<sem, queue, slot, dirty, db, order, expected, mine, rbTaken, broken>>
+    /\ UNCHANGED <<sem, queue, slot, slotLock, reads, pending, dirty, db, order, expected, mine, rbWaiting, rbTaken, broken>>
+
+\* ... dropped while a tx(..) call of this transaction is still in flight and holds the slot lock
+\* (a query future kept alive by the writer, or a second task working in the same transaction)
+DropPermitInFlight(w) ==
+    /\ pc[w] = "writing" /\ broken = "none"
+    /\ rbSpawned' = rbSpawned \cup {TxId(w)}
+    /\ aborted' = aborted \cup {TxId(w)}
+    /\ pc' = [pc EXCEPT ![w] = "orphan"]
+    /\ UNCHANGED <<sem, queue, slot, slotLock, reads, pending, dirty, db, order, expected, mine, txn, rbWaiting, rbTaken, broken>>
+
+\* the call in flight of the abandoned transaction comes to its end - it is driven to completion
+\* (finished = TRUE: its write lands in the doomed transaction) or its future is dropped - and
+\* releases the slot lock; a rollback task waiting for the lock gets it at once
+OrphanEnds(w, finished) ==
+    /\ pc[w] = "orphan" /\ broken = "none"
+    /\ slotLock' = "free"
+    /\ pending' = [pending EXCEPT ![w] = "none"]
+    /\ pc' = [pc EXCEPT ![w] = NextTx(w)]
+    /\ txn' = [txn EXCEPT ![w] = @ + 1]
+    /\ IF rbWaiting # {}
+       THEN HandOverLock
+       ELSE /\ dirty' = IF finished /\ pending[w] # "none" THEN Append(dirty, Write(w, pending[w])) ELSE dirty
+            /\ UNCHANGED <<rbWaiting, rbTaken, slot>>
+    /\ UNCHANGED <<sem, queue, reads, db, order, expected, mine, rbSpawned, aborted, broken>>
 
 \* commit(permit) / rollback(permit) is cancelled after `slot.take()`, while `tx.commit().await` /
 \* `tx.rollback().await` is in flight: the sqlx transaction is dropped (COMMIT went through or it is
 \* rolled back - all or nothing), the permit, still uncommitted, is dropped with it and spawns the
-\* rollback task, which finds the slot empty   (sqlite.rs:375-379 cut at the await)
+\* rollback task, which finds the slot empty
 CutCommit(w, wentThrough) ==
     /\ pc[w] = "in_tx" /\ broken = "none"
+    /\ slotLock = "free"
     /\ slot # "none"
     /\ IF wentThrough
        THEN /\ db' = db \o dirty
@@ -191,37 +259,45 @@ CutCommit(w, wentThrough) ==
     /\ rbSpawned' = rbSpawned \cup {TxId(w)}
     /\ pc' = [pc EXCEPT ![w] = NextTx(w)]
     /\ txn' = [txn EXCEPT ![w] = @ + 1]
-    /\ UNCHANGED <<sem, queue, mine, rbTaken, broken>>
+    /\ UNCHANGED <<sem, queue, slotLock, reads, pending, mine, rbWaiting, rbTaken, broken>>
 
 ---------------------------------------------------------------------------
 (* the spawned rollback task                                               *)
 
-\* `if let Some(tx) = tx.lock().await.take() { tx.rollback().await }`: whatever is in the slot
-RbTake(r) ==
+\* the task runs: `tx.lock().await` - it gets the slot lock at once and takes + rolls back whatever
+\* is in the slot, or it is suspended while a tx(..) call holds the lock
+RbStart(r) ==
     /\ r \in rbSpawned /\ broken = "none"
     /\ rbSpawned' = rbSpawned \ {r}
-    /\ rbTaken' = rbTaken \cup {r}
-    /\ slot' = "none" /\ dirty' = <<>>
-    /\ UNCHANGED <<sem, queue, db, order, expected, mine, pc, txn, aborted, broken>>
+    /\ IF slotLock = "free"
+       THEN /\ rbTaken' = rbTaken \cup {r}
+            /\ slot' = "none" /\ dirty' = <<>>
+            /\ UNCHANGED rbWaiting
+       ELSE /\ rbWaiting' = rbWaiting \cup {r}
+            /\ UNCHANGED <<rbTaken, slot, dirty>>
+    /\ UNCHANGED <<sem, queue, slotLock, reads, pending, db, order, expected, mine, pc, txn, aborted, broken>>
 
 \* `drop(permit)`: released only after the rollback
 RbRelease(r) ==
     /\ r \in rbTaken /\ broken = "none"
     /\ rbTaken' = rbTaken \ {r}
     /\ ReleaseSem(pc)
-    /\ UNCHANGED <<slot, dirty, db, order, expected, mine, txn, rbSpawned, aborted, broken>>
+    /\ UNCHANGED <<slot, slotLock, reads, pending, dirty, db, order, expected, mine, txn, rbSpawned, rbWaiting, aborted, broken>>
 
 ---------------------------------------------------------------------------
 
-AllDone == (\A w \in Writers : pc[w] = "done") /\ rbSpawned = {} /\ rbTaken = {}
+AllDone == (\A w \in Writers : pc[w] = "done") /\ rbSpawned = {} /\ rbWaiting = {} /\ rbTaken = {}
 Terminated == AllDone /\ UNCHANGED vars
 
 WriterStep(w) ==
     \/ SetSlot(w)
-    \/ \E k \in Keys : TxWrite(w, k)
+    \/ \E k \in Keys \cup {"none"} : LockSlot(w, k)
+    \/ UnlockSlot(w)
     \/ TakeCommit(w) \/ TakeRollback(w) \/ ReleasePermit(w) \/ DropPermit(w)
+    \/ DropPermitInFlight(w)
+    \/ \E f \in BOOLEAN : OrphanEnds(w, f)
     \/ \E c \in BOOLEAN : CutCommit(w, c)
-RbStep == \E r \in rbSpawned \cup rbTaken : RbTake(r) \/ RbRelease(r)
+RbStep == \E r \in rbSpawned \cup rbTaken : RbStart(r) \/ RbRelease(r)
 
 Next ==
     \/ \E w \in Writers : WantBegin(w) \/ WriterStep(w) \/ CancelWaiting(w) \/ CancelAcquired(w)
@@ -229,7 +305,8 @@ Next ==
     \/ Terminated
 
 \* Fairness: a writer that called begin() and got the permit goes on to the end of its
-\* transaction, the runtime runs spawned tasks. Nobody is obliged to start (or to cancel).
+\* transaction (a tx(..) call in flight comes to an end), the runtime runs spawned tasks.
+\* Nobody is obliged to start (or to cancel).
 Fairness ==
     /\ \A w \in Writers : WF_vars(WriterStep(w))
     /\ WF_vars(RbStep)
@@ -239,16 +316,17 @@ Spec == Init /\ [][Next]_vars /\ Fairness
 ---------------------------------------------------------------------------
 (* C10                                                                     *)
 
-Holding(w) == pc[w] \in {"acquired", "in_tx", "taken_c", "taken_r"}
+Holding(w) == pc[w] \in {"acquired", "in_tx", "writing", "taken_c", "taken_r"}
 Holders == {w \in Writers : Holding(w)}
 
 TypeOK ==
     /\ sem \in 0..1
     /\ slot \in Writers \cup {"none"}
-    /\ \A w \in Writers : pc[w] \in {"idle", "waiting", "acquired", "in_tx", "taken_c", "taken_r", "done"}
+    /\ slotLock \in Writers \cup {"free"}
+    /\ \A w \in Writers : pc[w] \in {"idle", "waiting", "acquired", "in_tx", "writing", "orphan", "taken_c", "taken_r", "done"}
 
 \* one permit: available, or held by exactly one writer or rollback task
-MutualExclusion == sem + Cardinality(Holders) + Cardinality(rbSpawned \cup rbTaken) = 1
+MutualExclusion == sem + Cardinality(Holders) + Cardinality(rbSpawned \cup rbWaiting \cup rbTaken) = 1
 
 \* the database is exactly the committed transactions' own writes, one after another
 Serial == db = expected
@@ -260,7 +338,10 @@ NoTrace == \A i \in 1..Len(db) : [w |-> db[i].w, t |-> db[i].t] \in CommittedSet
 
 \* a writer inside its transaction finds its own transaction in the slot (never TransactionMissing,
 \* never somebody else's) and only its own writes in it
-OwnSlot == \A w \in Writers : pc[w] = "in_tx" => slot = w /\ dirty = mine[w]
+OwnSlot == \A w \in Writers : pc[w] \in {"in_tx", "writing"} => slot = w /\ dirty = mine[w]
+
+\* while the permit is free the slot is empty (else the next begin() hits its assert!)
+FreeMeansEmpty == sem = 1 => slot = "none" /\ slotLock = "free"
 
 \* the assert! in begin and the panics in commit / rollback never fire
 NeverBroken == broken = "none"
